@@ -50,7 +50,7 @@ where
       let a ← (match args with
         | "same" => some EtaD.Args.same | "permuted" => some .permuted | "duplicated" => some .duplicated
         | "nonident" => some .nonIdent | "fewer" => some .fewer | _ => none)
-      let p ← (match pos with | "value" => some EtaD.Pos.value | "deferred" => some .deferred | _ => none)
+      let p ← (match pos with | "value" => some (EtaD.Pos.value false) | "value-deferred-later" => some (.value true) | "deferred" => some .deferred | _ => none)
       some (if EtaD.etaOK ⟨c, a, ty = "sametype", p⟩ then "reduced" else "kept")
 
 end GoCo.Iters
